@@ -419,6 +419,9 @@ def verdict(pid, results, hist_of, known, also=None, all_kinds=()):
         for v in r["viols"][:5000]:
             if v["prop"] == pid:
                 mine.append((r, v))
+            elif v["prop"] == "*":
+                # the driver of THIS check could not finish an operation (process killed from inside the code under test, or hung)
+                mine.append((r, dict(v, prop=pid)))
             elif r["job"].get("kind") in all_kinds or (also and also(v["prop"], v["conj"])):
                 mine.append((r, dict(v, conj=f"{v['prop']}:{v['conj']}", prop=pid)))
             else:
@@ -446,10 +449,16 @@ def run_main(pid, tier, seed, replay=None):
         d = vk.workdir(f"replay_{pid}_{os.getpid()}")
         if payload.get("history", {}).get("job_args"):
             hh = payload["history"]
-            vk.run_harness(hh["job_args"] + ["--out", f"{d}/r"])
+            try:
+                vk.run_harness(hh["job_args"] + ["--out", f"{d}/r"])
+            except vk.HarnessCrash as hc:
+                vk.log(f"replay: {hc}")
+                shutil.rmtree(d, ignore_errors=True)
+                print(f"VIOLATION property={pid} replay={replay}")
+                return 1
             viols, _, _, _ = vk.run_trace(hh["module"], f"{d}/r.ndjson")
             shutil.rmtree(d, ignore_errors=True)
-            if any(v["prop"] == pid for v in viols):
+            if any(v["prop"] in (pid, "*") for v in viols):
                 print(f"VIOLATION property={pid} replay={replay}")
                 return 1
             vk.log("replay: no violation (multi-threaded runs are not deterministic: absence on one re-run proves nothing)")
@@ -459,7 +468,7 @@ def run_main(pid, tier, seed, replay=None):
             vk.run_harness(["nodeids-replay", "--file", f"{d}/line.json", "--out", f"{d}/r"])
             viols, _, _, _ = vk.run_trace("TraceIds.tla", f"{d}/r.ndjson")
             shutil.rmtree(d, ignore_errors=True)
-            if any(v["prop"] == pid for v in viols):
+            if any(v["prop"] in (pid, "*") for v in viols):
                 print(f"VIOLATION property={pid} replay={replay}")
                 return 1
             vk.log("replay: no violation")
@@ -469,7 +478,7 @@ def run_main(pid, tier, seed, replay=None):
         vk.run_harness(["replay", "--hist", hp, "--threads", str(payload.get("threads", 1)), "--out", f"{d}/r"])
         viols, _, _, _ = vk.run_trace(module, f"{d}/r.ndjson")
         also = P.get("also")
-        mine = [v for v in viols if v["prop"] == pid or (also and also(v["prop"], v["conj"]))]
+        mine = [v for v in viols if v["prop"] in (pid, "*") or (also and also(v["prop"], v["conj"]))]
         shutil.rmtree(d, ignore_errors=True)
         if mine:
             for v in mine[:5]:
@@ -535,6 +544,8 @@ def run_main(pid, tier, seed, replay=None):
     hists_cache = {}
 
     def hist_of(r, hno):
+        if r.get("crashed"):
+            return dict(label="crashed:" + str(r["job"].get("kind") or r["job"]["args"][0]), indexes=[], ops=[], job_args=r["job"]["args"], module=r["job"].get("module", module))
         if r["job"].get("kind") in ("txn", "crash", "fixture", "upgrade", "bq", "kernel", "tmpn"):
             return dict(label=r["job"]["kind"], indexes=[], ops=[], job_args=r["job"]["args"], module=r["job"]["module"])
         if r["job"].get("kind") == "sched":
@@ -560,15 +571,26 @@ def run_main(pid, tier, seed, replay=None):
     n_events = sum(r["stats"]["events"] for r in results)
     drift = sum(len(r["drifts"]) for r in results)
 
-    # ---- 3. binding self-test on clean traces
+    # ---- 3. binding self-test on clean traces (jobs whose process was killed have no trace to corrupt)
+    live = [r for r in results if not r.get("crashed")]
     bad_by_trace = []
-    for r in results:
+    for r in live:
         if r["job"].get("kind") in ("sched", "txn", "crash", "upgrade", "bq", "kernel", "tmpn"):
             continue
         bad_h = {v["h"] for v in r["viols"]}
         bad_by_trace.append((r["prefix"] + ".ndjson", bad_h))
     st = selftest(P.get("selftest_as", pid), bad_by_trace, seed, module=module, count_as=pid, also=P.get("also"))
-    for r in results:
+    if module == "TraceMain.tla" and P["traces"].get(tier):
+        # the harness process is killed (abort) inside a build of a small run: the history must come back as a Crash event
+        dd = vk.workdir(f"selftest_crash_{os.getpid()}")
+        stc = vk.run_harness(["gen", "--profile", "forest", "--seed", "5", "--count", "6", "--threads", "1", "--first", "900000", "--out", f"{dd}/c"],
+                             env={"VERIF_TEST_CRASH_AT": "900003:2"})
+        vv, _, _, _ = vk.run_trace("TraceMain.tla", f"{dd}/c.ndjson")
+        st["applicable"].append("process_killed_inside_a_build")
+        ok = stc.get("crashed_histories") and any(v["prop"] == "*" and v["h"] == 900003 for v in vv)
+        (st["rejected"] if ok else st["missed"]).append("process_killed_inside_a_build")
+        shutil.rmtree(dd, ignore_errors=True)
+    for r in live:
         if r["job"].get("kind") == "sched":
             # duplicate one returned id / drop a step in recorded schedules: both must be noticed
             dd = vk.workdir(f"selftest_sched_{os.getpid()}")
@@ -585,7 +607,7 @@ def run_main(pid, tier, seed, replay=None):
                 (st["rejected"] if any(v["conj"] == "id_handed_out_twice" for v in vv) else st["missed"]).append("schedule_duplicate_id")
                 (st["rejected"] if dr else st["missed"]).append("schedule_step_removed")
             shutil.rmtree(dd, ignore_errors=True)
-    for r in results:
+    for r in live:
         if r["job"].get("kind") == "tmpn":
             # a recorded to_insert that keeps a removed entry / a missing to_delete id: both must drift
             dd = vk.workdir(f"selftest_tmpn_{os.getpid()}")
@@ -603,8 +625,8 @@ def run_main(pid, tier, seed, replay=None):
                 (st["rejected"] if "to_insert_differs_from_the_specification" in conjs else st["missed"]).append("buffer_keeps_a_removed_entry")
                 (st["rejected"] if "to_delete_differs_from_the_specification" in conjs else st["missed"]).append("buffer_forgets_a_deletion")
             shutil.rmtree(dd, ignore_errors=True)
-    for r in results:
-        if r["job"].get("kind") in ("txn", "crash"):
+    for r in live:
+        if r["job"].get("kind") in ("txn", "crash") and not r.get("crashed"):
             dd = vk.workdir(f"selftest_txn_{os.getpid()}")
             evs = [json.loads(ln) for ln in open(r["prefix"] + ".ndjson")]
             first_h = evs[0]["h"]
@@ -634,7 +656,7 @@ def run_main(pid, tier, seed, replay=None):
                 (st["rejected"] if any(v["prop"] == pid for v in vv) else st["missed"]).append(name)
             shutil.rmtree(dd, ignore_errors=True)
             break
-    for r in results:
+    for r in live:
         kind = r["job"].get("kind")
         if kind in ("upgrade", "bq", "kernel"):
             dd = vk.workdir(f"selftest_{kind}_{os.getpid()}")
@@ -673,24 +695,24 @@ def run_main(pid, tier, seed, replay=None):
 
     # ---- 4. samples and evidence
     samples = []
-    for r in [x for x in results if x["job"].get("kind") not in ("sched", "txn", "crash", "upgrade", "bq", "kernel", "tmpn")][:3]:
+    for r in [x for x in live if x["job"].get("kind") not in ("sched", "txn", "crash", "upgrade", "bq", "kernel", "tmpn")][:3]:
         hs = json.load(open(r["prefix"] + ".hist.json"))
         if hs:
             samples.append(summarize_history(hs[min(1, len(hs) - 1)]))
-    for r in [x for x in results if x["job"].get("kind") == "sched"][:1]:
+    for r in [x for x in live if x["job"].get("kind") == "sched"][:1]:
         with open(r["prefix"] + ".ndjson") as f:
             samples.append({"schedule": json.loads(f.readline())})
-    for r in [x for x in results if x["job"].get("kind") in ("upgrade", "bq", "kernel")][:2]:
+    for r in [x for x in live if x["job"].get("kind") in ("upgrade", "bq", "kernel")][:2]:
         with open(r["prefix"] + ".ndjson") as f:
             e = json.loads(f.readline())
         samples.append({"case": json.loads(json.dumps(e)[:1500] + '"') if False else {k: (v if len(json.dumps(v)) < 600 else str(v)[:600] + "...") for k, v in e.items()}})
-    with open(results[0]["prefix"] + ".ndjson") as f:
+    with open((live or results)[0]["prefix"] + ".ndjson") as f:
         for ln in f:
             e = json.loads(ln)
             if e["ev"] == P.get("sample_event", "Build"):
                 samples.append({"trace_event": {k: e[k] for k in e if k not in ("obs", "q")}})
                 break
-    for r in [x for x in results if x["job"].get("kind") in ("txn", "crash")][:1]:
+    for r in [x for x in live if x["job"].get("kind") in ("txn", "crash")][:1]:
         with open(r["prefix"] + ".ndjson") as f:
             evs = [json.loads(ln) for _, ln in zip(range(400), f)]
         samples.append({"event_sequence": [(e["ev"], e.get("v", e.get("r"))) for e in evs[:40]]})
